@@ -57,6 +57,10 @@ pub struct Plan {
     /// many chunks; (0, 0) = no padding. Used to hit the 65534/65535/65536 chunk-count boundary.
     #[serde(default)]
     pub pad_to: (u32, u32),
+    /// frame (clamped to the last one) that receives the legacy palette chunk; 0 = first frame.
+    /// Old Aseprite versions wrote a palette chunk into later frames too.
+    #[serde(default)]
+    pub legacy_frame: u8,
 }
 
 impl Plan {
@@ -75,6 +79,7 @@ impl Plan {
             shuffle: false,
             color_profile: 0,
             pad_to: (0, 0),
+            legacy_frame: 0,
         }
     }
 }
@@ -563,6 +568,9 @@ pub fn encode(s: &Sprite, plan: &Plan) -> Encoded {
         layer_key_base = keys;
     }
 
+    // a legacy chunk may only move to a later frame when a new-format palette (which must win) exists;
+    // otherwise indexed cels of earlier frames would have no palette yet
+    let legacy_fi = if s.palette.is_some() { (plan.legacy_frame as usize).min(s.frames.len().saturating_sub(1)) } else { 0 };
     for (fi, frame) in s.frames.iter().enumerate() {
         let mut items: Vec<Item> = Vec::new();
         let mut seq = 0u64;
@@ -593,12 +601,12 @@ pub fn encode(s: &Sprite, plan: &Plan) -> Encoded {
                 let k = key(&mut cx, None);
                 items.push(Item { key: k, chunks: vec![c] });
             }
-            if let Some(l) = &s.legacy {
+            if let (Some(l), true) = (&s.legacy, legacy_fi == 0) {
                 let uds: Vec<&UserData> = s.sprite_user_data.iter().collect();
                 let chunks = cx.with_retinue(legacy_chunk(l), &uds);
                 let k = key(&mut cx, None);
                 items.push(Item { key: k, chunks });
-            } else if plan.legacy_beside_new {
+            } else if plan.legacy_beside_new && s.legacy.is_none() {
                 if let Some(p) = &s.palette {
                     let cols: Vec<[u8; 3]> = p.entries.iter().take(256).map(|e| [e.rgba[0], e.rgba[1], e.rgba[2]]).collect();
                     if !cols.is_empty() && p.first < 256 {
@@ -638,6 +646,14 @@ pub fn encode(s: &Sprite, plan: &Plan) -> Encoded {
                 let uds: Vec<&UserData> = sl.user_data.iter().collect();
                 let chunks = cx.with_retinue(w, &uds);
                 let k = key(&mut cx, Some(skeys[si]));
+                items.push(Item { key: k, chunks });
+            }
+        }
+        if fi > 0 && fi == legacy_fi {
+            if let Some(l) = &s.legacy {
+                let uds: Vec<&UserData> = s.sprite_user_data.iter().collect();
+                let chunks = cx.with_retinue(legacy_chunk(l), &uds);
+                let k = key(&mut cx, None);
                 items.push(Item { key: k, chunks });
             }
         }
@@ -746,7 +762,14 @@ pub fn encode(s: &Sprite, plan: &Plan) -> Encoded {
         match cx.junk_rng.next() % 4 {
             0 => 0,
             1 => (cx.junk_rng.next() % (total as u64 + 1)) as u32,
-            2 => total.wrapping_add(1 + (cx.junk_rng.next() % 1000) as u32),
+            2 => {
+                if cx.junk_rng.next() % 2 == 0 && !out.frame_ends.is_empty() {
+                    // exactly a frame boundary (stale size after frames were appended)
+                    out.frame_ends[(cx.junk_rng.next() % out.frame_ends.len() as u64) as usize] as u32
+                } else {
+                    total.wrapping_add(1 + (cx.junk_rng.next() % 1000) as u32)
+                }
+            }
             _ => cx.junk_rng.next() as u32,
         }
     } else {
